@@ -164,6 +164,13 @@ func (e *Engine) register(cf *ContractFile) error {
 	for _, c := range cf.Contracts {
 		switch c.Kind {
 		case "func", "assume":
+			variant := ""
+			if i := strings.Index(c.Key, "#"); i >= 0 {
+				// "Func#variant": an additional contract verified against the same body (for example a
+				// safety-only contract without preconditions); call sites use the plain contract
+				variant = c.Key[i:]
+				c.Key = c.Key[:i]
+			}
 			f := e.FindFunc(cf.PkgPath, c.Key)
 			if f == nil {
 				if c.Kind == "assume" {
@@ -172,13 +179,13 @@ func (e *Engine) register(cf *ContractFile) error {
 				}
 				return fmt.Errorf("%s: contract stale: no function %q in package %s", cf.Path, c.Key, cf.PkgPath)
 			}
-			k := f.String()
+			k := f.String() + variant
 			if _, dup := e.Contracts[k]; dup {
 				return fmt.Errorf("%s: duplicate contract for %s", cf.Path, k)
 			}
 			e.Contracts[k] = c
 			c.Key = k
-			if c.Kind == "func" {
+			if c.Kind == "func" && !c.Trusted {
 				e.Order = append(e.Order, k)
 			}
 		case "lemma":
